@@ -25,6 +25,7 @@ for P in $PROP "$@"; do
   echo "check $P exit=$RC: $(grep -m1 -A1 VIOLATION $OUT/check_$P.log | tr '\n' ' ' | cut -c1-400)"
 done
 git -C /repo checkout -- .
+git -C /verif checkout -- evidence   # evidence is only ever committed from runs on the clean tree
 python3 - "$NAME" "$PROP" "$T1" "$D1" "$D0" "$RES" <<'PY'
 import sys, json
 name, prop, t1, d1, d0, res = sys.argv[1:7]
